@@ -72,3 +72,26 @@ theorem C19_amount_boundaries :
   · simp [validAmount, parseDec, isDigit]
   · simp [validAmount, parseDec, isDigit]
   · simp [validAmount, parseDec]
+
+/-- **Every call answers for its own request, whatever came before.**  In a session of any length
+through the one service, the k-th call forwards the k-th request's own values (or nothing, when
+that request is malformed) and streams that call's commitments — a refused hand-over, a rejected
+request or a large bundle earlier in the session leaves no trace in it. -/
+theorem C19_session_call_is_its_own (pre post : List (Req × Net)) (r : Req) (n : Net) :
+    (session (pre ++ (r, n) :: post))[pre.length]? = some (handle1 r n) := by
+  simp [session]
+
+/-- a hand-over the network layer refuses: the request's own values were offered once, nothing is
+streamed, and the caller is told (Internal), for accepted requests only -/
+theorem C19_refused_handover (r : Req) (h : accept r = true) :
+    handle1 r .fails =
+      ⟨.internal, [⟨joinComma r.txHashes, r.amount, r.blockNumber, r.decayStart, r.decayEnd⟩], []⟩ := by
+  simp [handle1, forwarded, h]
+
+/-- a malformed request reaches the network layer in no session position -/
+theorem C19_session_malformed_never_forwarded (xs : List (Req × Net)) (o : Out) (k : Nat)
+    (hk : (session xs)[k]? = some o) (r : Req) (n : Net) (hx : xs[k]? = some (r, n))
+    (hbad : accept r = false) : o.forwarded = [] ∧ o.streamed = [] ∧ o.status = .invalid := by
+  simp [session, hx] at hk
+  subst hk
+  simp [handle1, forwarded, hbad]
